@@ -40,6 +40,12 @@ AlphaGridIn   == {-1, 0, 500000}
 AlphaGridOpaqueHalf == {-1, 500000}
 HueGridC33   == {-30000, 360000} \cup {30000 * i : i \in 0..11}
 DeltasPM     == {-1000, -400, 400, 1000}
+(* thorough tier *)
+RgbGridT     == RgbGridFull \cup {1000, 128000, 254000}
+PctGridT     == PctGridFull \cup {25000, 75000}
+PctGridInT   == PctGridIn \cup {25000, 75000}
+HueGridT     == HueGridFull \cup {15000 * i : i \in 0..23} \cup {-720000, 719000}
+AmountsT     == {0, 10000, 25000, 50000, 75000, 100000}
 
 In(ctor, form, args, alpha) == [ctor |-> ctor, form |-> form, args |-> args, alpha |-> alpha]
 
